@@ -5,21 +5,60 @@ import (
 	"fmt"
 	"io"
 	"os"
+	"syscall"
 	"time"
 )
 
-// ErrInjected is the error every injected fault returns.
+// ErrInjected is the error an injected fault returns by default.
 var ErrInjected = errors.New("sim: injected fault")
+
+// Flavors of injected errors: what real destinations and sources return is not
+// always a plain error value. A fault plan names one of them.
+var Flavors = []string{"plain", "temporary", "eagain", "shortwrite", "unexpected-eof", "closed"}
+
+// tempErr looks like a net.Error that asks to be retried.
+type tempErr struct{}
+
+func (tempErr) Error() string   { return "sim: injected fault (temporary, timeout)" }
+func (tempErr) Temporary() bool { return true }
+func (tempErr) Timeout() bool   { return true }
+
+// ErrFor returns the error value of a flavor.
+func ErrFor(flavor string) error {
+	switch flavor {
+	case "temporary":
+		return tempErr{}
+	case "eagain":
+		return fmt.Errorf("sim: injected fault: %w", syscall.EAGAIN)
+	case "shortwrite":
+		return io.ErrShortWrite
+	case "unexpected-eof":
+		return io.ErrUnexpectedEOF
+	case "closed":
+		return os.ErrClosed
+	}
+	return ErrInjected
+}
+
+// IsInjected reports whether err is one of the injected error values.
+func IsInjected(err error) bool {
+	if err == nil {
+		return false
+	}
+	var t tempErr
+	return errors.Is(err, ErrInjected) || errors.As(err, &t) || errors.Is(err, syscall.EAGAIN) || errors.Is(err, io.ErrShortWrite) || errors.Is(err, io.ErrUnexpectedEOF) || errors.Is(err, os.ErrClosed)
+}
 
 // ---------------------------------------------------------------- sim sink
 
 // SinkFault describes a fault of the destination io.Writer. Faults respect the
 // io.Writer contract: a short count always comes with an error.
 type SinkFault struct {
-	K      int    `json:"k"`      // 1-based index of the sink call that fails
-	Kind   string `json:"kind"`   // err0 | torn
-	Arg    int    `json:"arg"`    // torn: selects how many bytes are accepted
-	Sticky bool   `json:"sticky"` // call K and all later calls fail
+	K      int    `json:"k"`                // 1-based index of the sink call that fails
+	Kind   string `json:"kind"`             // err0 | torn | full (all bytes accepted, and an error)
+	Arg    int    `json:"arg"`              // torn: selects how many bytes are accepted
+	Sticky bool   `json:"sticky"`           // call K and all later calls fail
+	Flavor string `json:"flavor,omitempty"` // error value returned: see Flavors ("" = plain)
 }
 
 // SinkCall is one recorded call of the sink.
@@ -99,10 +138,13 @@ func (s *Sink) write(p []byte, op string) (int, error) {
 	n := len(p)
 	var err error
 	if f := s.Fault; f != nil && (k == f.K || (f.Sticky && k > f.K)) {
-		err = ErrInjected
+		err = ErrFor(f.Flavor)
 		n = 0
 		if f.Kind == "torn" && len(p) >= 2 {
 			n = 1 + f.Arg%(len(p)-1)
+		}
+		if f.Kind == "full" {
+			n = len(p)
 		}
 		call.Failed = true
 		s.Fired++
@@ -132,10 +174,11 @@ type Frag struct {
 
 // SrcFault describes a fault of the source io.ReadSeeker.
 type SrcFault struct {
-	K      int    `json:"k"`      // 1-based index over Read, ReadByte and Seek calls
-	Kind   string `json:"kind"`   // err0 | partial | early_eof   (a Seek call fails with an error whatever the kind)
-	Arg    int    `json:"arg"`    // partial: selects how many bytes are returned
-	Sticky bool   `json:"sticky"` // call K and all later calls fail
+	K      int    `json:"k"`                // 1-based index over Read, ReadByte and Seek calls
+	Kind   string `json:"kind"`             // err0 | partial | full (all requested bytes, and an error) | early_eof   (a Seek call fails with an error whatever the kind)
+	Arg    int    `json:"arg"`              // partial: selects how many bytes are returned
+	Sticky bool   `json:"sticky"`           // call K and all later calls fail
+	Flavor string `json:"flavor,omitempty"` // error value returned: see Flavors ("" = plain)
 }
 
 // SrcStats counts what the source actually did.
@@ -251,11 +294,18 @@ func (s *Source) Read(p []byte) (int, error) {
 				copy(p, s.data[s.pos:s.pos+int64(n)])
 				s.pos += int64(n)
 				s.log("read", len(p), n, true, p[:n])
-				return n, ErrInjected
+				return n, ErrFor(s.Fault.Flavor)
+			}
+		case "full":
+			if avail >= 1 {
+				copy(p, s.data[s.pos:s.pos+int64(avail)])
+				s.pos += int64(avail)
+				s.log("read", len(p), avail, true, p[:avail])
+				return avail, ErrFor(s.Fault.Flavor)
 			}
 		}
 		s.log("read", len(p), 0, true, nil)
-		return 0, ErrInjected
+		return 0, ErrFor(s.Fault.Flavor)
 	}
 	if remaining <= 0 {
 		s.log("read", len(p), 0, false, nil)
@@ -309,7 +359,7 @@ func (s *Source) readByte() (byte, error) {
 		if s.Fault.Kind == "early_eof" {
 			return 0, io.EOF
 		}
-		return 0, ErrInjected
+		return 0, ErrFor(s.Fault.Flavor)
 	}
 	if s.pos >= int64(len(s.data)) {
 		s.log("readbyte", 1, 0, false, nil)
@@ -329,7 +379,7 @@ func (s *Source) Seek(off int64, whence int) (int64, error) {
 		s.fire("seek")
 		s.Stats.FiredSeek++
 		s.log("seek", int(off), whence, true, nil)
-		return 0, ErrInjected
+		return 0, ErrFor(s.Fault.Flavor)
 	}
 	var np int64
 	switch whence {
@@ -382,7 +432,7 @@ func (s SourceX) ReadAt(p []byte, off int64) (int, error) {
 		if src.Fault.Kind == "early_eof" {
 			return 0, io.EOF
 		}
-		return 0, ErrInjected
+		return 0, ErrFor(src.Fault.Flavor)
 	}
 	if off < 0 || off >= int64(len(src.data)) {
 		src.log("readat", len(p), 0, false, nil)
@@ -416,7 +466,7 @@ func (s SourceX) WriteTo(w io.Writer) (int64, error) {
 	if src.faulted() {
 		src.fire("writeto")
 		src.log("writeto", 0, 0, true, nil)
-		return 0, ErrInjected
+		return 0, ErrFor(src.Fault.Flavor)
 	}
 	if src.pos >= int64(len(src.data)) {
 		return 0, nil
